@@ -23,6 +23,15 @@ fn limit() -> usize {
     *LIMIT.get().expect("limit set")
 }
 
+pub fn set_limit(l: usize) {
+    let _ = LIMIT.set(l);
+}
+
+/// a whole file as given (fuzz targets)
+pub fn check_container_bytes(file: &[u8], log: &mut CaseLog) -> CaseResult {
+    read_container(file, "raw", "(from the file)", log)
+}
+
 /// Constant-size allocations of codec implementations (stream state, window buffers).
 const CODEC_SLACK: usize = 256 << 10;
 
@@ -384,6 +393,8 @@ pub fn dispatch(campaign: &str, c: &mut Choices, log: &mut CaseLog) -> Option<Ca
         "exhaustive" => Some(case_exhaustive(c, log)),
         "hostile_container" => Some(case_hostile_container(c, log)),
         "bomb" => Some(case_bomb(c, log)),
+        "fuzz_datum_c05" => Some(crate::fuzzglue::case_datum_c05(c, log)),
+        "fuzz_container" => Some(crate::fuzzglue::case_container(c, log)),
         _ => None,
     }
 }
@@ -434,14 +445,14 @@ pub fn run_child(mut chk: Check, lim: usize) -> ! {
         }
         chk.explicit("bomb", &bombs, case_bomb);
     }
-    let n = chk.scale(30_000, 1_000_000);
+    let n = chk.scale(60_000, 1_000_000);
     chk.campaign(CampaignCfg::new("hostile_datum", n), case_hostile_datum);
     chk.campaign(CampaignCfg::new("hostile_container", n / 2), case_hostile_container);
     chk.finish()
 }
 
 /// Parent: one child per limit, merge their evidence.
-pub fn run(chk: Check) -> ! {
+pub fn run(mut chk: Check) -> ! {
     if let Err(e) = refbin::self_test() {
         infra(&format!("refbin self-test failed: {e}"));
     }
@@ -537,6 +548,16 @@ pub fn run(chk: Check) -> ! {
         }
     }
     let _ = std::fs::remove_dir_all(&scratch);
+    // thorough tier: coverage-guided campaigns under a 1 MiB limit (this process decodes nothing else)
+    chk.fuzz_stage("c05_datum", "fuzz_datum_c05", 3_000_000, 512, &crate::fuzzglue::seeds_datum(), crate::fuzzglue::case_datum_c05);
+    chk.fuzz_stage("c05_container", "fuzz_container", 1_500_000, 2048, &crate::fuzzglue::seeds_container(), crate::fuzzglue::case_container);
+    merged_evals += chk.evaluations;
+    merged_distinct += chk.distinct.len() as u64;
+    if !chk.violations.is_empty() {
+        violations += chk.violations.len() as i128;
+        worst = 1;
+    }
+    let fuzz_extra: Vec<(String, Js)> = chk.extra.drain(..).collect();
     if samples.is_empty() {
         samples.push(Js::str("(no sample: children did not report)"));
     }
@@ -555,6 +576,7 @@ pub fn run(chk: Check) -> ! {
                 ("samples".into(), Js::Arr(samples)),
                 ("limits".into(), Js::Arr(limits.iter().map(|l| Js::int(*l as i128)).collect())),
                 ("per_limit".into(), Js::Obj(per_limit)),
+                ("libfuzzer".into(), Js::Obj(fuzz_extra)),
             ]),
         ),
         ("assumptions".into(), Js::Arr(vec![Js::str("nesting depth of the data is bounded by the generator (unbounded recursion depth is an acknowledged non-goal)"), Js::str("a hang would end in the harness's watchdog-less child never returning; work is bounded by counters in the serde visitors and by allocation in the generic decoder")])),
